@@ -7,8 +7,4 @@ SAN := -fsanitize=address,undefined -fno-sanitize-recover=all -fno-omit-frame-po
 
 HARNESSES :=
 
-HARNESSES += C13_hist
-C13_hist_SRCS  := tools/src/libtools/histogramnew.cc tools/src/libtools/histogram.cc tools/src/libtools/table.cc
-C13_hist_FLAGS := $(EIGEN_THROW) -D_GLIBCXX_ASSERTIONS -include stdexcept $(SAN) -fno-sanitize=float-cast-overflow
-C13_hist_LIBS  := $(LIBTOOLS)
-C13_hist_DEPS  := $(TOOLSSO)
+include $(sort $(wildcard flags.d/*.mk))
